@@ -90,6 +90,14 @@ theorem delay_stamp_once (cfg cfg' : DelayCfg) (topic topic' : String) (m : Msg)
   · rw [h1] at h; exact absurd rfl h
   · rw [h1] at h; exact absurd rfl h
 
+/- non-vacuity of `delay_stamp_once`: a message with a context delay is changed by the first publisher -/
+example : (applyDelay ⟨none, false⟩ "t" { id := 0, md := [], ctxDelay := some ⟨5, 5⟩ }).2.1 ≠
+    ({ id := 0, md := [], ctxDelay := some ⟨5, 5⟩ } : Msg) := by
+  intro h
+  have := congrArg (fun m => m.md.length) h
+  simp [applyDelay, mget, stamp, mset, Val.empty] at this
+  split at this <;> simp at this
+
 /-- **delayed-for and delayed-until agree**: for a delay built by `delay.For(d)` or `delay.Until(t)` when the clock
     showed `now`, the stamped until is the second in which `now + for` lies (RFC 3339 keeps whole seconds). -/
 theorem delay_for_until_agree (m : Msg) (now x : Int) :
@@ -147,6 +155,14 @@ theorem delay_batch_ok (cfg : DelayCfg) (topic : String) (ms : List Msg)
     · rename_i m' g heq
       simp only at h
       simp [heq, ih h]
+
+/- non-vacuity of `delay_batch_ok` / `delay_batch_error_iff`: a batch mixing pre-set metadata, a context delay and a
+   message without any delay under AllowNoDelay has no error; without AllowNoDelay it has -/
+example : (applyAll ⟨none, true⟩ "t" [{ id := 0, md := [(forKey, .raw "1h")] }, { id := 1, md := [], ctxDelay := some ⟨5, 5⟩ },
+    { id := 2, md := [] }]).2.1 = none := by
+  simp [applyAll, applyDelay, mget, Val.empty]
+example : (applyAll ⟨none, false⟩ "t" [{ id := 1, md := [], ctxDelay := some ⟨5, 5⟩ }, { id := 2, md := [] }]).2.1 = some .noDelay := by
+  simp [applyAll, applyDelay, mget, Val.empty]
 
 /-- **delay_batch_one_call_or_none** for the delay publisher over any inner stack: if some message has no delay
     available the error is returned and *nothing* below is called (no inner Publish, no metric); otherwise the whole
@@ -368,6 +384,9 @@ theorem publish_marked_no_obs (inner : String) (layers : List PubLayer) (topic :
         rcases List.mem_map.mp hm with ⟨m', _, rfl⟩
         rfl
 
+example : ∀ m ∈ [({ id := 0, md := [], pubMark := true } : Msg), { id := 1, md := [], pubMark := true }], m.pubMark = true := by
+  simp
+
 /-- **metrics_publish_once** (guarded, finding D15 open): a Publish call with a non-empty batch whose first message
     object has not been through a metrics decorator before is observed EXACTLY ONCE by a metrics decorator, whatever
     is stacked below it – further metrics decorators (applied twice, three times, …), delay publishers, transforms –
@@ -518,6 +537,9 @@ theorem metrics_subscribe_once (inner : String) (layers : List SubLayer) (m : Ms
   simp only [subCounts]
   cases st m.id <;> rfl
 
+example : hasSubMetrics [.metrics, .transform id, .metrics] = true ∧ ({ id := 3, md := [] } : Msg).subMark = false :=
+  ⟨rfl, rfl⟩
+
 theorem metrics_subscribe_none (inner : String) (layers : List SubLayer) (m : Msg) (st : Nat → Settle)
     (hm : hasSubMetrics layers = false) : subCounts st (deliver inner layers m).2 = [] := by
   rw [(deliver_watchers inner layers m).2.2.2 (Or.inr hm)]; rfl
@@ -606,18 +628,25 @@ theorem publish_nMetrics (pn topic : String) (k : Nat) (ms : List Msg) (pw : PWo
     right label, ONE subscriber count with the label of the settlement, nothing published, no publish observation -/
 theorem router_step_no_output (h pn sn : String) (kp ks i : Nat) (o : Outcome) (w : RWorld)
     (ho : o = .err ∨ o = .panic ∨ o = .ok 0) :
-    let w' := routerStep h pn sn kp (ks + 1) i o w
+    let w' := routerStep h pn sn kp (ks + 1) 1 i o w
     let st : Settle := if o = .ok 0 then .ack else .nack
     w'.hobs = w.hobs ++ [handlerObs h o] ∧ w'.settles = w.settles ++ [st] ∧
     w'.sobs = w.sobs ++ [⟨orElse h noHandler, orElse sn sn, decide (o = .ok 0)⟩] ∧ w'.pw = w.pw := by
   have hd := (deliver_nSub sn ks ⟨i, [], none, false, false, h, pn, sn⟩ rfl).1
   rcases ho with rfl | rfl | rfl <;> simp [routerStep, hd, subCounts]
 
+example : (routerStep "h" "P" "S" 2 2 1 7 .panic {}).sobs = [⟨"h", "S", false⟩] ∧
+    (routerStep "h" "P" "S" 2 2 1 7 .panic {}).hobs = [⟨"h", false⟩] := by
+  have := router_step_no_output "h" "P" "S" 2 1 7 .panic {} (Or.inr (Or.inl rfl))
+  simp only at this
+  rcases this with ⟨h1, _, h3, _⟩
+  rw [h1, h3]; simp [handlerObs, orElse]
+
 /-- one message whose handler returns `n + 1` messages: ONE handler observation `success=true` (whatever happens to
     the output afterwards), ONE Publish call of the wrapped publisher, ONE publish observation labelled with the result
     of that call, ONE subscriber count: `acked` iff the output was published. Decorators applied `kp + 1` / `ks + 1` times. -/
 theorem router_step_output (h pn sn : String) (kp ks i n : Nat) (w : RWorld) :
-    let w' := routerStep h pn sn (kp + 1) (ks + 1) i (.ok (n + 1)) w
+    let w' := routerStep h pn sn (kp + 1) (ks + 1) 1 i (.ok (n + 1)) w
     let fail := w.pw.script.headD false
     let st : Settle := if fail then .nack else .ack
     w'.hobs = w.hobs ++ [⟨h, true⟩] ∧ w'.settles = w.settles ++ [st] ∧
@@ -632,7 +661,7 @@ theorem router_step_output (h pn sn : String) (kp ks i n : Nat) (w : RWorld) :
   simp only [produced, nMetrics_succ] at hp hres hcalls
   simp only [routerStep, hd, produced, nMetrics_succ, handlerObs]
   simp only [hp, hres]
-  refine ⟨trivial, ?_, ?_, ⟨ms', hcalls⟩, ?_⟩ <;>
+  refine ⟨by simp, ?_, ?_, ⟨ms', hcalls⟩, ?_⟩ <;>
     cases w.pw.script.headD false <;> simp [subCounts]
 
 /-- **metrics_handler_once**: over any sequence of handler outcomes (success with or without output, error, panic,
@@ -640,24 +669,46 @@ theorem router_step_output (h pn sn : String) (kp ks i n : Nat) (w : RWorld) :
     invocation exactly once, in order, labelled `success=true` exactly for the invocations that returned nil
     without panicking – a publish failure afterwards does not change the handler's label. -/
 theorem metrics_handler_once (h pn sn : String) (kp ks : Nat) (outs : List Outcome) (i : Nat) (w : RWorld) :
-    (routerRun h pn sn kp ks i outs w).hobs = w.hobs ++ outs.map (handlerObs h) := by
+    (routerRun h pn sn kp ks 1 i outs w).hobs = w.hobs ++ outs.map (handlerObs h) := by
   induction outs generalizing i w with
   | nil => simp [routerRun]
   | cons o rest ih =>
     simp only [routerRun]
     rw [ih]
-    have : (routerStep h pn sn kp ks i o w).hobs = w.hobs ++ [handlerObs h o] := by
+    have : (routerStep h pn sn kp ks 1 i o w).hobs = w.hobs ++ [handlerObs h o] := by
       cases o with
       | ok n => cases n <;> simp [routerStep]
       | err => simp [routerStep]
       | panic => simp [routerStep]
     rw [this]; simp
 
+/-- the middleware has no idempotency mark: registered `km` times, EACH application observes every invocation once
+    (so the histogram shows `km` samples per invocation, all with the same, correct label).  The property's quantifier
+    ranges over decorator stacks with the middleware applied once (`metrics_handler_once`); this theorem records what
+    the model – and the code, see the `rt` cases with `km = 2` – does beyond that. -/
+theorem metrics_handler_each_application (h pn sn : String) (kp ks km : Nat) (outs : List Outcome) (i : Nat) (w : RWorld) :
+    (routerRun h pn sn kp ks km i outs w).hobs = w.hobs ++ outs.flatMap (fun o => List.replicate km (handlerObs h o)) := by
+  induction outs generalizing i w with
+  | nil => simp [routerRun]
+  | cons o rest ih =>
+    simp only [routerRun]
+    rw [ih]
+    have : (routerStep h pn sn kp ks km i o w).hobs = w.hobs ++ List.replicate km (handlerObs h o) := by
+      cases o with
+      | ok n => cases n <;> simp [routerStep]
+      | err => simp [routerStep]
+      | panic => simp [routerStep]
+    rw [this]; simp
+
+example : (routerRun "h" "P" "S" 1 1 2 0 [.ok 0, .panic] {}).hobs =
+    [⟨"h", true⟩, ⟨"h", true⟩, ⟨"h", false⟩, ⟨"h", false⟩] := by
+  rw [metrics_handler_each_application]; rfl
+
 /-- the three metrics over a whole run, decorators applied once or several times: as many subscriber counts as
     messages, `acked` ones as many as acked messages; as many publish observations as calls of the wrapped
     publisher; as many handler observations as invocations -/
 theorem router_metrics_exact (h pn sn : String) (kp ks : Nat) (outs : List Outcome) (i : Nat) (w : RWorld) :
-    let w' := routerRun h pn sn (kp + 1) (ks + 1) i outs w
+    let w' := routerRun h pn sn (kp + 1) (ks + 1) 1 i outs w
     w'.hobs.length = w.hobs.length + outs.length ∧
     w'.settles.length = w.settles.length + outs.length ∧
     w'.sobs.length = w.sobs.length + outs.length ∧
@@ -668,7 +719,7 @@ theorem router_metrics_exact (h pn sn : String) (kp ks : Nat) (outs : List Outco
   | nil => simp [routerRun]
   | cons o rest ih =>
     simp only [routerRun]
-    have := ih (i + 1) (routerStep h pn sn (kp + 1) (ks + 1) i o w)
+    have := ih (i + 1) (routerStep h pn sn (kp + 1) (ks + 1) 1 i o w)
     simp only at this
     rcases this with ⟨a1, a2, a3, a4, a5⟩
     have hcase : (o = .err ∨ o = .panic ∨ o = .ok 0) ∨ ∃ n, o = .ok (n + 1) := by
@@ -693,7 +744,7 @@ theorem router_metrics_exact (h pn sn : String) (kp ks : Nat) (outs : List Outco
       refine ⟨by omega, by omega, by omega, ?_, by omega⟩
       cases fail <;> simp at a4 ⊢ <;> omega
 
-example : (routerRun "h" "P" "S" 2 2 0 [.ok 1, .panic, .ok 2, .err] { pw := { script := [false, true] } }).hobs =
+example : (routerRun "h" "P" "S" 2 2 1 0 [.ok 1, .panic, .ok 2, .err] { pw := { script := [false, true] } }).hobs =
     [⟨"h", true⟩, ⟨"h", false⟩, ⟨"h", true⟩, ⟨"h", false⟩] := by
   rw [metrics_handler_once]; rfl
 
